@@ -179,6 +179,16 @@ func (rw *Rewriter) Visit(node sql.Node) (w sql.Visitor, n sql.Node, err error) 
 				return nil, nil, err
 			}
 		}
+	case *sql.Null:
+		// sql.Walk does not descend into the operand of IS NULL / NOT NULL, so
+		// visit it here.
+		if n.X != nil {
+			x, err := sql.Walk(rw, n.X)
+			if err != nil {
+				return nil, nil, err
+			}
+			n.X = x.(sql.Expr)
+		}
 	case *sql.OrderingTerm:
 		// NO random() rewriting past this point.
 		rw.orderedBy = true
